@@ -180,6 +180,8 @@ impl<Data: Clone + Debug> From<TimelineConfiguration<Data>> for TimelineBuilderA
         };
         args.keyframes
             .sort_by(|a, b| a.normalized_time.total_cmp(&b.normalized_time));
+        // Boundary times must describe the same (sorted) order as the keyframes.
+        args.boundary_times = args.keyframes.iter().map(|k| k.normalized_time).collect();
         args
     }
 }
